@@ -6,6 +6,9 @@
 #include <veriblock/pop/entities/altblock.hpp>
 #include <veriblock/pop/entities/endorsements.hpp>
 #include <veriblock/pop/serde.hpp>
+#include <veriblock/pop/entities/atv.hpp>
+#include <veriblock/pop/entities/vtb.hpp>
+#include <veriblock/pop/entities/popdata.hpp>
 using namespace altintegration;
 static std::vector<uint8_t> symVec(uint32_t lo, uint32_t hi, uint32_t fill) {
   uint32_t n = verif_choice(lo, hi);
@@ -14,7 +17,126 @@ static std::vector<uint8_t> symVec(uint32_t lo, uint32_t hi, uint32_t fill) {
   if (n > 3) v[n - 1] = nondet_u8();
   return v;
 }
+#ifndef OUTS
+#define OUTS 1
+#endif
+// ---- composite payloads (value-first): symbolic scalar fields, symbolic lengths of the variable-size fields; equality is decided on
+// the fields and on the re-encoding (operator== of these types hashes, which is not encodable).  The embedded BTC transaction stays
+// concrete because the decoder derives the BTC Merkle subject from its double SHA-256.
+static bool gLight = false;
+static void symBlob(uint8_t* p, int n) { for (int i = 0; i < n; i += 8) { uint64_t x = nondet_u64(); for (int k = 0; k < 8 && i + k < n; k++) p[i + k] = (uint8_t)(x >> (8 * k)); } }
+static VbkBlock symVbkBlock() {
+  VbkBlock b; b.height = (int32_t)nondet_u32(); b.version = (int16_t)nondet_u16(); b.timestamp = nondet_u32(); b.difficulty = (int32_t)nondet_u32(); b.nonce = nondet_u64() & 0xffffffffffull;
+  symBlob((uint8_t*)b.previousBlock.data(), 12); symBlob((uint8_t*)b.previousKeystone.data(), 9); symBlob((uint8_t*)b.secondPreviousKeystone.data(), 9); symBlob((uint8_t*)b.merkleRoot.data(), 16);
+  return b;
+}
+static bool sameVbk(const VbkBlock& a, const VbkBlock& b) {
+  return a.height == b.height && a.version == b.version && a.timestamp == b.timestamp && a.difficulty == b.difficulty && a.nonce == b.nonce && a.previousBlock == b.previousBlock &&
+         a.previousKeystone == b.previousKeystone && a.secondPreviousKeystone == b.secondPreviousKeystone && a.merkleRoot == b.merkleRoot;
+}
+static BtcBlock symBtcBlock() {
+  BtcBlock b; b.version = nondet_u32(); b.timestamp = nondet_u32(); b.bits = nondet_u32(); b.nonce = nondet_u32();
+  symBlob((uint8_t*)b.previousBlock.data(), 32); symBlob((uint8_t*)b.merkleRoot.data(), 32);
+  return b;
+}
+static bool sameBtc(const BtcBlock& a, const BtcBlock& b) { return a.version == b.version && a.timestamp == b.timestamp && a.bits == b.bits && a.nonce == b.nonce && a.previousBlock == b.previousBlock && a.merkleRoot == b.merkleRoot; }
+static VbkMerklePath symVbkPath() {
+  VbkMerklePath m;
+  if (gLight) { m.treeIndex = 1; m.index = (int32_t)nondet_u8(); return m; }
+  m.treeIndex = (int32_t)nondet_u32(); m.index = (int32_t)nondet_u32(); symBlob((uint8_t*)m.subject.data(), 32);
+  uint32_t n = verif_choice(0, OUTS); for (uint32_t i = 0; i < n; i++) { uint256 l; symBlob((uint8_t*)l.data(), 32); m.layers.push_back(l); }
+  return m;
+}
+static bool sameVbkPath(const VbkMerklePath& a, const VbkMerklePath& b) { return a.treeIndex == b.treeIndex && a.index == b.index && a.subject == b.subject && a.layers == b.layers; }
+static NetworkBytePair symNet(uint8_t type) { NetworkBytePair n; n.typeId = type; n.networkType.hasValue = verif_cbool(); n.networkType.value = n.networkType.hasValue ? nondet_u8() : 0;
+  verif_assume(!n.networkType.hasValue || n.networkType.value != type);   // wire format: a network byte equal to the transaction type id is not representable (readNetworkByte would take it for the type)
+  return n; }
+// gLight (PopData level): the embedded transactions keep one symbolic field each (they are decided on their own by v_vbktx .. v_vtb)
+static VbkTx symVbkTx() {
+  VbkTx t;
+  if (gLight) { t.networkOrType.typeId = 1; t.sourceAmount.units = 1000; t.signatureIndex = (int64_t)nondet_u8(); t.publicationData.identifier = 7; t.publicationData.header = {1, 2}; t.signature = {3}; t.publicKey = {4, 5}; return t; }
+  t.networkOrType = symNet(1);
+  t.sourceAmount.units = (int64_t)nondet_u64();
+  uint32_t no = verif_choice(0, OUTS); for (uint32_t i = 0; i < no; i++) { Output o; o.coin.units = (int64_t)(nondet_u8()); t.outputs.push_back(o); }
+  t.signatureIndex = (int64_t)nondet_u16();
+  t.publicationData.identifier = (int64_t)nondet_u16(); t.publicationData.header = symVec(0, 1, 1); t.publicationData.payoutInfo = symVec(1, 1, 2); t.publicationData.contextInfo = symVec(1, 1, 3);
+  t.signature = symVec(0, 1, 4); if (verif_cbool()) t.signature.resize(72, 4);
+  t.publicKey = symVec(1, 1, 5); if (verif_cbool()) t.publicKey.resize(88, 5);
+  return t;
+}
+static bool sameVbkTx(const VbkTx& a, const VbkTx& b) {
+  bool outs = a.outputs.size() == b.outputs.size();
+  for (size_t i = 0; outs && i < a.outputs.size(); i++) outs = a.outputs[i].coin.units == b.outputs[i].coin.units && a.outputs[i].address == b.outputs[i].address;
+  return outs && a.networkOrType.typeId == b.networkOrType.typeId && a.networkOrType.networkType.hasValue == b.networkOrType.networkType.hasValue && a.networkOrType.networkType.value == b.networkOrType.networkType.value &&
+         a.sourceAddress == b.sourceAddress && a.sourceAmount.units == b.sourceAmount.units && a.signatureIndex == b.signatureIndex && a.publicationData.identifier == b.publicationData.identifier &&
+         a.publicationData.header == b.publicationData.header && a.publicationData.payoutInfo == b.publicationData.payoutInfo && a.publicationData.contextInfo == b.publicationData.contextInfo &&
+         a.signature == b.signature && a.publicKey == b.publicKey;
+}
+static VbkPopTx symPopTx() {
+  VbkPopTx t;
+  if (gLight) { t.networkOrType.typeId = 2; t.publishedBlock.height = (int32_t)nondet_u32(); t.bitcoinTransaction.tx = {9, 9}; t.merklePath.subject = t.bitcoinTransaction.getHash(); t.signature = {1}; t.publicKey = {2}; return t; }
+  t.networkOrType = symNet(2);
+  t.publishedBlock = symVbkBlock();
+  t.bitcoinTransaction.tx = std::vector<uint8_t>{1, 2, 3, 4, 5};                       // concrete: its double SHA-256 becomes the Merkle subject on decode
+  t.merklePath.index = (int32_t)nondet_u32(); t.merklePath.subject = t.bitcoinTransaction.getHash();
+  { uint32_t n = verif_choice(0, OUTS); for (uint32_t i = 0; i < n; i++) { uint256 l; symBlob((uint8_t*)l.data(), 32); t.merklePath.layers.push_back(l); } }
+  t.blockOfProof = symBtcBlock();
+  { uint32_t n = verif_choice(0, OUTS); for (uint32_t i = 0; i < n; i++) t.blockOfProofContext.push_back(symBtcBlock()); }
+  t.signature = symVec(0, 1, 4); t.publicKey = symVec(1, 1, 5);
+  return t;
+}
+static bool samePopTx(const VbkPopTx& a, const VbkPopTx& b) {
+  bool ctx = a.blockOfProofContext.size() == b.blockOfProofContext.size();
+  for (size_t i = 0; ctx && i < a.blockOfProofContext.size(); i++) ctx = sameBtc(a.blockOfProofContext[i], b.blockOfProofContext[i]);
+  return ctx && a.networkOrType.typeId == b.networkOrType.typeId && a.networkOrType.networkType.hasValue == b.networkOrType.networkType.hasValue && a.networkOrType.networkType.value == b.networkOrType.networkType.value &&
+         a.address == b.address && sameVbk(a.publishedBlock, b.publishedBlock) && a.bitcoinTransaction.tx == b.bitcoinTransaction.tx && a.merklePath.index == b.merklePath.index &&
+         a.merklePath.subject == b.merklePath.subject && a.merklePath.layers == b.merklePath.layers && sameBtc(a.blockOfProof, b.blockOfProof) && a.signature == b.signature && a.publicKey == b.publicKey;
+}
+template <typename T, typename Same>
+static void roundTrip(const T& x, Same same) {
+  auto& w = *new WriteStream();
+  auto& st = *new ValidationState();
+  x.toVbkEncoding(w);
+  verif_check(x.estimateSize() == w.data().size(), 1);          // estimateSize is exact
+  ReadStream rs(w.data());
+  T& y = *new T();
+  bool ok = DeserializeFromVbkEncoding(rs, y, st);
+  verif_check(ok, 2);                                           // every structurally valid value decodes
+  if (!ok) return;
+  verif_check(rs.remaining() == 0, 3);                          // and consumes exactly its encoding
+  verif_check(same(x, y), 4);                                   // field by field equal
+  auto& w2 = *new WriteStream();
+  y.toVbkEncoding(w2);
+  verif_check(w2.data() == w.data(), 5);                        // canonical: re-encoding gives the same bytes
+  verif_cover(1);
+}
 extern "C" __attribute__((noinline)) void h_value() {
+#if defined(V_VBKTX)
+  roundTrip(symVbkTx(), sameVbkTx); return;
+#elif defined(V_POPTX)
+  roundTrip(symPopTx(), samePopTx); return;
+#elif defined(V_ATV)
+  { ATV a; a.transaction = symVbkTx(); a.merklePath = symVbkPath(); a.blockOfProof = symVbkBlock();
+    roundTrip(a, [](const ATV& p, const ATV& q) { return p.version == q.version && sameVbkTx(p.transaction, q.transaction) && sameVbkPath(p.merklePath, q.merklePath) && sameVbk(p.blockOfProof, q.blockOfProof); }); return; }
+#elif defined(V_VTB)
+  { VTB v; v.transaction = symPopTx(); v.merklePath = symVbkPath(); v.containingBlock = symVbkBlock();
+    roundTrip(v, [](const VTB& p, const VTB& q) { return p.version == q.version && samePopTx(p.transaction, q.transaction) && sameVbkPath(p.merklePath, q.merklePath) && sameVbk(p.containingBlock, q.containingBlock); }); return; }
+#elif defined(V_POPDATA)
+  { PopData d; gLight = true;
+    uint32_t nc = verif_choice(0, 2), nv = verif_choice(0, 2), na = verif_choice(0, 2);
+    for (uint32_t i = 0; i < nc; i++) d.context.push_back(symVbkBlock());
+    for (uint32_t i = 0; i < nv; i++) { VTB v; v.transaction = symPopTx(); v.merklePath = symVbkPath(); v.containingBlock = symVbkBlock(); d.vtbs.push_back(v); }
+    for (uint32_t i = 0; i < na; i++) { ATV a; a.transaction = symVbkTx(); a.merklePath = symVbkPath(); a.blockOfProof = symVbkBlock(); d.atvs.push_back(a); }
+    roundTrip(d, [](const PopData& p, const PopData& q) {
+      bool r = p.version == q.version && p.context.size() == q.context.size() && p.vtbs.size() == q.vtbs.size() && p.atvs.size() == q.atvs.size();
+      for (size_t i = 0; r && i < p.context.size(); i++) r = sameVbk(p.context[i], q.context[i]);
+      for (size_t i = 0; r && i < p.vtbs.size(); i++) r = samePopTx(p.vtbs[i].transaction, q.vtbs[i].transaction) && sameVbkPath(p.vtbs[i].merklePath, q.vtbs[i].merklePath) && sameVbk(p.vtbs[i].containingBlock, q.vtbs[i].containingBlock);
+      for (size_t i = 0; r && i < p.atvs.size(); i++) r = sameVbkTx(p.atvs[i].transaction, q.atvs[i].transaction) && sameVbkPath(p.atvs[i].merklePath, q.atvs[i].merklePath) && sameVbk(p.atvs[i].blockOfProof, q.atvs[i].blockOfProof);
+      return r; });
+    if (nc == 2 && nv == 2 && na == 2) verif_cover(2);
+    return; }
+#endif
+#if !defined(V_VBKTX) && !defined(V_POPTX) && !defined(V_ATV) && !defined(V_VTB) && !defined(V_POPDATA)
   auto& w = *new WriteStream();
   auto& st = *new ValidationState();
 #if defined(V_KEYSTONE) || defined(V_CTX) || defined(V_AUTHCTX)
@@ -72,5 +194,6 @@ extern "C" __attribute__((noinline)) void h_value() {
   if (ok) { verif_check(y.hash == b.hash && y.previousBlock == b.previousBlock && y.height == b.height && y.timestamp == b.timestamp && rs.remaining() == 0, 3); verif_cover(1); }
 #else
 #error entity
+#endif
 #endif
 }
